@@ -2170,6 +2170,8 @@ impl Block {
                 debug!(
                     "miner_publickey is not set or payout is zero. Not adding to fee transaction"
                 );
+                // as with the router payouts, what cannot be paid out goes to the graveyard
+                graveyard_contribution += miner_payout;
             }
 
             if router1_payout > 0 {
